@@ -37,8 +37,10 @@ import (
 )
 
 type Event struct {
-	Kind string `json:"kind"` // inject | answer | release | app | answerapp | close
-	ID   int    `json:"id"`
+	Kind string `json:"kind"` // inject | answer | release | app | answerapp | appfail | close
+	// appfail: an application request with a 300 ms deadline that the peer never acknowledges or
+	// answers; the scenario goes on once it has failed
+	ID int `json:"id"`
 	// inject: how the handler behaves
 	Beh   string `json:"beh,omitempty"`   // plain | nested | gated
 	Depth int    `json:"depth,omitempty"` // nested: number of sequential nested requests the handler makes (1-3)
@@ -283,6 +285,16 @@ func Exec(t *testing.T, sc Scenario, r *evid.Run) *evid.Failure {
 					appRes[j] = s
 					mu.Unlock()
 				}()
+			case "appfail":
+				wg.Add(1)
+				go func() {
+					defer wg.Done()
+					ctx, cancel := context.WithTimeout(context.Background(), 300*time.Millisecond)
+					defer cancel()
+					_, _ = cc.Get(ctx, fmt.Sprintf("/f/%d", e.ID))
+				}()
+				bubble.Wait()
+				time.Sleep(350 * time.Millisecond)
 			case "answerapp":
 				if rq, ok := pendingApp[e.ID]; ok {
 					delete(pendingApp, e.ID)
@@ -388,7 +400,7 @@ func Exec(t *testing.T, sc Scenario, r *evid.Run) *evid.Failure {
 	// arrival order, when no handler ever blocks and nothing else uses the connection
 	allPlain := !closed
 	for _, e := range sc.Events {
-		if (e.Kind == "inject" && e.Beh != "plain" && e.Beh != "busy") || e.Kind == "app" {
+		if (e.Kind == "inject" && e.Beh != "plain" && e.Beh != "busy") || e.Kind == "app" || e.Kind == "appfail" {
 			allPlain = false
 		}
 	}
@@ -433,6 +445,9 @@ func gen(t *rapid.T) Scenario {
 				kinds = append(kinds, "release")
 			}
 			kinds = append(kinds, "app")
+			if rapid.IntRange(0, 3).Draw(t, "fails") == 0 {
+				kinds = append(kinds, "appfail")
+			}
 			if len(apps) > 0 {
 				kinds = append(kinds, "answerapp")
 			}
@@ -526,12 +541,18 @@ func TestCheck(t *testing.T) {
 					break
 				}
 			}
+			for _, e := range sc.Events {
+				if e.Kind == "appfail" {
+					cls = append(cls, "dispatch/after-a-request-that-timed-out")
+					break
+				}
+			}
 			r.Case("dispatch", key, func() any { return sc }, cls...)
 		}
 		return f
 	})
 	r.Main(evid.Meta{
-		Rule:        "a connection (datagram and stream, receive queue 0/1/16, generous request limits or the library's defaults of one outstanding request) in a synctest bubble; the scripted peer injects numbered requests whose handlers return at once, block on 1-3 sequential requests issued on the same connection, or block on a gate, or stay busy without blocking; message IDs of the peer's choosing, some of them equal or close to the IDs the library itself is about to use or half the ID space away; messages arrive one by one (quiescence in between) or in bursts that pile up in the receive queue; it answers the nested requests after delivering further messages, other goroutines issue requests meanwhile, the connection may be closed at a generated point; Oracle: every message injected while the connection is open reaches the handler exactly once; every nested request completes with its own response (so later messages — among them the awaited response — are processed while a handler waits); every handler finishes once gates are open and nested requests answered; application requests complete; with only non-blocking handlers and no other user of the connection the dispatch order equals the arrival order. Non-trivial = a handler waits on a nested request while a further message arrives; distinct by scenario",
+		Rule:        "a connection (datagram and stream, receive queue 0/1/16, generous request limits or the library's defaults of one outstanding request) in a synctest bubble; the scripted peer injects numbered requests whose handlers return at once, block on 1-3 sequential requests issued on the same connection, or block on a gate, or stay busy without blocking; message IDs of the peer's choosing, some of them equal or close to the IDs the library itself is about to use or half the ID space away; messages arrive one by one (quiescence in between) or in bursts that pile up in the receive queue; it answers the nested requests after delivering further messages, other goroutines issue requests meanwhile (some of them never acknowledged or answered by the peer, so that they time out), the connection may be closed at a generated point; Oracle: every message injected while the connection is open reaches the handler exactly once; every nested request completes with its own response (so later messages — among them the awaited response — are processed while a handler waits); every handler finishes once gates are open and nested requests answered; application requests complete; with only non-blocking handlers and no other user of the connection the dispatch order equals the arrival order. Non-trivial = a handler waits on a nested request while a further message arrives; distinct by scenario",
 		Assumptions: []string{"a handler that blocks on something other than its own connection (the gate) legitimately stalls later messages until it returns", "after close nothing is required of undelivered messages"},
 		Floor:       300,
 	}, eng)
